@@ -188,6 +188,13 @@ func pruneHashKeyedUpto(
 		}
 	}
 
+	// The hash→number mapping of a block is deleted one iteration late, when its
+	// successor is processed: wherever the loop stops (completion or cancellation) the
+	// mapping of the last pruned block survives - the carve-out resolved by
+	// StateAtBlockHash(parentHash of the oldest retained block). It is cleaned up by
+	// the next PruneUpto call via the start-1 branch above.
+	var prevBlockHash *felt.Felt
+
 	blockNum := start
 	for ; blockNum < endExclusive; blockNum++ {
 		if err := ctx.Err(); err != nil {
@@ -199,14 +206,12 @@ func pruneHashKeyedUpto(
 			return 0, err
 		}
 
-		// Skip endExclusive-1: its hash→number mapping is the carve-out
-		// resolved by StateAtBlockHash(endExclusive.parentHash). Cleaned up
-		// by the next PruneUpto call via the start-1 branch above.
-		if blockNum != endExclusive-1 {
-			if err := core.DeleteBlockHeaderNumberByHash(batch, su.BlockHash); err != nil {
+		if prevBlockHash != nil {
+			if err := core.DeleteBlockHeaderNumberByHash(batch, prevBlockHash); err != nil {
 				return 0, err
 			}
 		}
+		prevBlockHash = su.BlockHash
 
 		if err := deleteTransactionHashReverseLookups(database, batch, blockNum); err != nil {
 			return 0, err
@@ -217,6 +222,13 @@ func pruneHashKeyedUpto(
 		}
 
 		if batch.Size() >= targetBatchByteSize {
+			// Every batch is a complete prune of its prefix: the number-keyed data (which
+			// defines what counts as retained) goes in the same write as the hash-keyed
+			// data of the same blocks, so a crash between two batches never leaves a
+			// block that looks retained but has lost its lookups and history.
+			if err := PruneBlockDataUpto(batch, blockNum+1); err != nil {
+				return 0, err
+			}
 			if err := batch.Write(); err != nil {
 				return 0, err
 			}
@@ -224,6 +236,9 @@ func pruneHashKeyedUpto(
 		}
 	}
 
+	if err := PruneBlockDataUpto(batch, blockNum); err != nil {
+		return 0, err
+	}
 	return blockNum, batch.Write()
 }
 
